@@ -554,12 +554,14 @@ Definition issued_eqb (a b : issued) : bool := list_eqb (fun x y => (fst x =? fs
 (* input: the operations (with the observed engine effects and prune removals); observed: the identifiers the
    implementation handed out, for every reload the projection of the State before saving and of the State returned by
    ReadState, and the projection of the final State *)
-Inductive case := Case (ops : list op) (ids : issued) (reloads : list (state * state)) (final : state).
+(* [cache_gone]: for every reload, whether a value put into State.Cache (not persisted, by design) before the save is absent from
+   the checkpoint payload and from the State returned by ReadState *)
+Inductive case := Case (ops : list op) (ids : issued) (reloads : list (state * state)) (final : state) (cache_gone : list bool).
 
 Definition id_fn (x : N) : N := x.
 Definition mismatch (c : case) : bool :=
   match c with
-  | Case ops ids reloads final =>
+  | Case ops ids reloads final cache_gone =>
       let '(sf, iss, befores) := run empty_state ops in
       negb (issued_eqb iss ids && state_eqb id_fn sf final && list_eqb (state_eqb id_fn) befores (map fst reloads))
   end.
@@ -598,8 +600,9 @@ Fixpoint notices_unique (l : list notice) : bool :=
 
 Definition monitor_fail (c : case) : bool :=
   match c with
-  | Case ops ids reloads final =>
+  | Case ops ids reloads final cache_gone =>
       negb (ids_ok ids && forallb reload_ok reloads
             && forallb (fun p => notices_unique (s_notices (fst p)) && notices_unique (s_notices (snd p))) reloads
-            && notices_unique (s_notices final))
+            && notices_unique (s_notices final)
+            && forallb (fun b => b) cache_gone)      (* (4) the cache is runtime-only: never saved, empty after a load *)
   end.
